@@ -68,8 +68,12 @@ type Event struct {
 }
 
 type Case struct {
-	ID     int         `json:"id"`
-	Stream string      `json:"stream"`
+	ID     int    `json:"id"`
+	Stream string `json:"stream"`
+	// Early: verification messages may precede their target block; the node caches them and
+	// applies them from a background goroutine, so the child lets the node settle after every
+	// delivery; such cases are judged by the oracle only (not passed to the model)
+	Early  bool        `json:"early,omitempty"`
 	Blocks []BlockSpec `json:"blocks"`
 	Events []Event     `json:"events"`
 }
@@ -187,6 +191,9 @@ func runOne(w *cl.World, c *Case, base string) (*Result, error) {
 			}
 			delivered[e.Block] = true
 			orphan, err := n.Chain.ProcessBlock(b)
+			if c.Early {
+				time.Sleep(200 * time.Millisecond)
+			}
 			dump(orphan, err)
 		case "vote":
 			last := r.Steps[len(r.Steps)-1]
@@ -540,6 +547,19 @@ func corpus() []*Case {
 		c.votes(0, t[3], 1, 2, 3)
 		cs = append(cs, c)
 	}
+	// 6. verification messages before their target block: trunk 1..4, branch A 5..12, then the
+	// votes genesis -> 8' of keys 1..3 (cached), then branch B 5'..9'
+	{
+		c := &Case{Stream: "corpus-early-vote", Early: true}
+		t := c.chainFrom(0, 4, false)
+		a := c.chainFrom(t[3], 8, false)
+		b := c.chainFrom(t[3], 5, false)
+		c.deliver(t...)
+		c.deliver(a...)
+		c.votes(0, b[3], 1, 2, 3)
+		c.deliver(b...)
+		cs = append(cs, c)
+	}
 	return cs
 }
 
@@ -669,10 +689,13 @@ func (g *gen) order(c *Case) []int {
 	return ord
 }
 
-func (g *gen) random(id int, malformed bool) *Case {
-	c := &Case{ID: id, Stream: "random"}
+func (g *gen) random(id int, malformed bool, early bool) *Case {
+	c := &Case{ID: id, Stream: "random", Early: early}
 	if malformed {
 		c.Stream = "malformed"
+	}
+	if early {
+		c.Stream = "early-votes"
 	}
 	g.tree(c, g.r.Chance(60), malformed)
 	n := len(c.Blocks)
@@ -770,6 +793,9 @@ func (g *gen) random(id int, malformed bool) *Case {
 			at := conn[t] + 1 + g.r.Intn(n-conn[t])
 			if conn[tt]+1 > at {
 				at = conn[tt] + 1
+			}
+			if early && g.r.Chance(70) {
+				at = g.r.Intn(conn[t] + 1) // before the target is connected: the node caches the message
 			}
 			var evs []Event
 			risky := g.r.Chance(12)
@@ -887,11 +913,19 @@ func (v *view) forkChoice(connected []bool, root int, status map[int]string) int
 }
 
 // oracle: the property predicate on the implementation's outputs of one step.
-func (v *view) oracle(i int, s Step, connected []bool, fail func(int, string)) {
+func (v *view) oracle(i int, s Step, connected []bool, earlyTargets map[int]bool, fail func(int, string)) {
 	n := len(v.c.Blocks)
 	// --- best = fork choice
 	want := v.forkChoice(connected, s.Finalized, s.Status)
-	if want != s.Best {
+	cached := false
+	for t := range earlyTargets {
+		if s.Status[t] == "justified" || s.Status[t] == "finalized" {
+			cached = true
+		}
+	}
+	if want != s.Best && cached {
+		fail(i, fmt.Sprintf("class=cached-vote-no-rollback: a checkpoint was justified by verification messages that arrived before their target block (applied by authVerificationLoop without tryRollback); best block is label %d (height %d) but the fork-choice rule selects label %d (height %d)", s.Best, v.h[s.Best], want, v.h[want]))
+	} else if want != s.Best {
 		fail(i, fmt.Sprintf("class=best-not-fork-choice: best block is label %d (height %d) but the fork-choice rule over the known valid tree selects label %d (height %d)", s.Best, v.h[s.Best], want, v.h[want]))
 	}
 	if s.Height != v.h[s.Best] {
@@ -921,8 +955,8 @@ func (v *view) oracle(i int, s Step, connected []bool, fail func(int, string)) {
 }
 
 type caseStats struct {
-	orphans, reorgs, shorter, justified, supJustified, finalized, errs, skipped int
-	nontrivial, deadlock                                                        bool
+	orphans, reorgs, shorter, justified, supJustified, finalized, errs, skipped, early int
+	nontrivial, deadlock                                                               bool
 }
 
 // check applies the oracle to every step and returns the model events.
@@ -935,6 +969,7 @@ func check(c *Ctx, cs *Case, r *Result) (events []string, bjust map[int]bool, st
 	fail := func(step int, what string) {
 		c.Stats.Fail(what, map[string]interface{}{"case": cs, "step": step, "hashes": r.Hashes, "observed": r.Steps[step]})
 	}
+	earlyTargets := map[int]bool{}
 	for i, s := range r.Steps {
 		var ev *Event
 		if i > 0 {
@@ -944,10 +979,14 @@ func check(c *Ctx, cs *Case, r *Result) (events []string, bjust map[int]bool, st
 			}
 		}
 		connected := v.connected(delivered)
+		if ev != nil && ev.Kind == "vote" && !s.Skipped && !connected[ev.Target] {
+			earlyTargets[ev.Target] = true
+			st.early++
+		}
 		if s.Best < 0 || s.Finalized < 0 {
 			fail(i, fmt.Sprintf("class=unknown-best: best block or finalized block is not a block of the tree (best %d, finalized %d)", s.Best, s.Finalized))
 		} else {
-			v.oracle(i, s, connected, fail)
+			v.oracle(i, s, connected, earlyTargets, fail)
 		}
 		// --- statistics and model events
 		if i == 0 {
@@ -1089,12 +1128,15 @@ func modelCase(cs *Case, r *Result, events []string, bjust map[int]bool) (string
 func runC11(c *Ctx) error {
 	g := &gen{r: c.Rng}
 	cases := corpus()
-	nRandom, nMal := c.N(70, 700), c.N(25, 250)
+	nRandom, nMal, nEarly := c.N(70, 700), c.N(25, 250), c.N(8, 60)
 	for i := 0; i < nRandom; i++ {
-		cases = append(cases, g.random(0, false))
+		cases = append(cases, g.random(0, false, false))
 	}
 	for i := 0; i < nMal; i++ {
-		cases = append(cases, g.random(0, true))
+		cases = append(cases, g.random(0, true, false))
+	}
+	for i := 0; i < nEarly; i++ {
+		cases = append(cases, g.random(0, false, true))
 	}
 	for i, cs := range cases {
 		cs.ID = i
@@ -1172,10 +1214,15 @@ func runC11(c *Ctx) error {
 		}
 		bucket("votes-withheld(would-deadlock)", st.skipped)
 		bucket("justified-by-block-suplink", st.supJustified)
-		model, obs := modelCase(cs, r, events, bjust)
-		id := c.Cases.Add(model, obs)
-		c.Stats.CaseIndex[fmt.Sprint(id)] = cs
-		c.Stats.Count("model_evaluated")
+		bucket("votes-before-target(cached)", st.early)
+		if cs.Early {
+			c.Stats.Count("oracle-only(early votes)")
+		} else {
+			model, obs := modelCase(cs, r, events, bjust)
+			id := c.Cases.Add(model, obs)
+			c.Stats.CaseIndex[fmt.Sprint(id)] = cs
+			c.Stats.Count("model_evaluated")
+		}
 		last := r.Steps[len(r.Steps)-1]
 		c.Stats.Sample(map[string]interface{}{"stream": cs.Stream, "blocks": len(cs.Blocks), "events": len(cs.Events),
 			"final_best_height": last.Height, "reorganisations": st.reorgs, "to_shorter_chain": st.shorter, "justifications": st.justified})
